@@ -2,3 +2,4 @@
 import SmoothProps.C05
 import SmoothProps.SrcTie
 import SmoothProps.SrcTieImplC05
+import SmoothProps.SrcTieBundle
